@@ -11,6 +11,7 @@ import (
 	"sort"
 	"strconv"
 	"strings"
+	"sync"
 
 	"verifharness/internal/ev"
 )
@@ -78,7 +79,74 @@ func serveHTTPKeywords(dir, recvType string) (kws []string, switches int, err er
 	}
 	set := map[string]bool{}
 	found := false
+	var unresolved []string
 	for _, pkg := range pkgs {
+		consts, strOf := pkgStringTables(pkg)
+		// a case expression that is not a string literal: a string constant of the package, or
+		// X.String() for a constant X whose type has a String method made of `case X: return "lit"`
+		resolve := func(e ast.Expr) (string, bool) {
+			switch t := e.(type) {
+			case *ast.Ident:
+				v, ok := consts[t.Name]
+				return v, ok
+			case *ast.ParenExpr:
+				if id, ok := t.X.(*ast.Ident); ok {
+					v, ok := consts[id.Name]
+					return v, ok
+				}
+			case *ast.CallExpr:
+				if sel, ok := t.Fun.(*ast.SelectorExpr); ok && sel.Sel.Name == "String" && len(t.Args) == 0 {
+					if id, ok := sel.X.(*ast.Ident); ok {
+						v, ok := strOf[id.Name]
+						return v, ok
+					}
+				}
+				// string(X) for a string constant X
+				if fn, ok := t.Fun.(*ast.Ident); ok && fn.Name == "string" && len(t.Args) == 1 {
+					if id, ok := t.Args[0].(*ast.Ident); ok {
+						v, ok := consts[id.Name]
+						return v, ok
+					}
+				}
+			}
+			return "", false
+		}
+		funcs := map[string]*ast.FuncDecl{}
+		for _, f := range pkg.Files {
+			for _, decl := range f.Decls {
+				if fd, ok := decl.(*ast.FuncDecl); ok && fd.Body != nil {
+					funcs[fd.Name.Name] = fd
+				}
+			}
+		}
+		clauseMutates := func(cc *ast.CaseClause) bool {
+			for _, st := range cc.Body {
+				if mentionsMutatingMethod(st) {
+					return true
+				}
+			}
+			mut := false
+			for _, st := range cc.Body {
+				ast.Inspect(st, func(x ast.Node) bool {
+					call, ok := x.(*ast.CallExpr)
+					if !ok {
+						return true
+					}
+					name := ""
+					switch f := call.Fun.(type) {
+					case *ast.SelectorExpr:
+						name = f.Sel.Name
+					case *ast.Ident:
+						name = f.Name
+					}
+					if fd := funcs[name]; fd != nil && name != "ServeHTTP" && mentionsMutatingMethod(fd.Body) {
+						mut = true
+					}
+					return !mut
+				})
+			}
+			return mut
+		}
 		for _, f := range pkg.Files {
 			for _, decl := range f.Decls {
 				fd, ok := decl.(*ast.FuncDecl)
@@ -123,9 +191,23 @@ func serveHTTPKeywords(dir, recvType string) (kws []string, switches int, err er
 							switches++
 							for _, st := range t.Body.List {
 								cc := st.(*ast.CaseClause)
+								mut := clauseMutates(cc)
 								for _, e := range cc.List {
-									if s, ok := strLit(e); ok {
+									s, ok := strLit(e)
+									if !ok {
+										if s, ok = resolve(e); ok {
+											resolvedNonLiteral[recvType+":"+s] = true
+										}
+									}
+									if ok {
 										set[s] = true
+										if mut {
+											kwMutBranchMu.Lock()
+											kwMutBranch[dir+"|"+recvType+":"+s] = true
+											kwMutBranchMu.Unlock()
+										}
+									} else {
+										unresolved = append(unresolved, fset.Position(e.Pos()).String())
 									}
 								}
 							}
@@ -152,11 +234,117 @@ func serveHTTPKeywords(dir, recvType string) (kws []string, switches int, err er
 	if !found {
 		return nil, 0, fmt.Errorf("no method (*%s).ServeHTTP in %s", recvType, dir)
 	}
+	if len(unresolved) > 0 {
+		// an endpoint keyword the sweep would silently miss
+		return nil, 0, fmt.Errorf("(*%s).ServeHTTP: case expression(s) of the keyword switch that are neither string literals nor resolvable constants / String() calls: %s", recvType, strings.Join(unresolved, ", "))
+	}
 	for k := range set {
 		kws = append(kws, k)
 	}
 	sort.Strings(kws)
 	return kws, switches, nil
+}
+
+// kwMutBranch records, per "recvType:keyword", whether the case clause of the keyword (or a function it
+// calls directly) tests the request method against "post" / "put" / "delete": the keyword has a mutating
+// branch.  (A lower bound: a branch reached through `else` or two calls deep is not seen.)
+var (
+	kwMutBranch   = map[string]bool{}
+	kwMutBranchMu sync.Mutex
+)
+
+func mentionsMutatingMethod(n ast.Node) bool {
+	found := false
+	ast.Inspect(n, func(x ast.Node) bool {
+		if lit, ok := x.(*ast.BasicLit); ok && lit.Kind == token.STRING {
+			if v, err := strconv.Unquote(lit.Value); err == nil {
+				switch strings.ToLower(v) {
+				case "post", "put", "delete":
+					found = true
+				}
+			}
+		}
+		if sel, ok := x.(*ast.SelectorExpr); ok {
+			switch sel.Sel.Name {
+			case "MethodPost", "MethodPut", "MethodDelete":
+				found = true
+			}
+		}
+		return !found
+	})
+	return found
+}
+
+// resolvedNonLiteral records the keywords that came from non-literal case expressions (evidence).
+var resolvedNonLiteral = map[string]bool{}
+
+// pkgStringTables returns the string constants of a package (name -> value) and, for every
+// String method of the shape `switch recv { case X: return "lit" ... }`, the table X -> "lit".
+func pkgStringTables(pkg *ast.Package) (consts, strOf map[string]string) {
+	consts, strOf = map[string]string{}, map[string]string{}
+	for _, f := range pkg.Files {
+		for _, decl := range f.Decls {
+			switch d := decl.(type) {
+			case *ast.GenDecl:
+				if d.Tok != token.CONST {
+					continue
+				}
+				for _, sp := range d.Specs {
+					vs, ok := sp.(*ast.ValueSpec)
+					if !ok {
+						continue
+					}
+					for i, nm := range vs.Names {
+						if i < len(vs.Values) {
+							if v, ok := strLit(vs.Values[i]); ok {
+								consts[nm.Name] = v
+							} else if call, ok := vs.Values[i].(*ast.CallExpr); ok && len(call.Args) == 1 {
+								// T("lit")
+								if v, ok := strLit(call.Args[0]); ok {
+									consts[nm.Name] = v
+								}
+							}
+						}
+					}
+				}
+			case *ast.FuncDecl:
+				if d.Name.Name != "String" || d.Recv == nil || len(d.Recv.List) != 1 || len(d.Recv.List[0].Names) != 1 || d.Body == nil {
+					continue
+				}
+				recv := d.Recv.List[0].Names[0].Name
+				ast.Inspect(d.Body, func(n ast.Node) bool {
+					sw, ok := n.(*ast.SwitchStmt)
+					if !ok {
+						return true
+					}
+					if id, ok := sw.Tag.(*ast.Ident); !ok || id.Name != recv {
+						return true
+					}
+					for _, st := range sw.Body.List {
+						cc := st.(*ast.CaseClause)
+						if len(cc.Body) != 1 {
+							continue
+						}
+						ret, ok := cc.Body[0].(*ast.ReturnStmt)
+						if !ok || len(ret.Results) != 1 {
+							continue
+						}
+						v, ok := strLit(ret.Results[0])
+						if !ok {
+							continue
+						}
+						for _, e := range cc.List {
+							if id, ok := e.(*ast.Ident); ok {
+								strOf[id.Name] = v
+							}
+						}
+					}
+					return false
+				})
+			}
+		}
+	}
+	return
 }
 
 // webRoute is one goji route of server/web.go:initRoutes.
